@@ -317,6 +317,7 @@ def main():
     os.makedirs(workdir)
     infra = []
     results = []
+    deferred = []
     metas = {}
     try:
         todo = []
@@ -330,6 +331,9 @@ def main():
                 infra.append(str(ex))
                 continue
             for g in gs:
+                if g.tier == 'thorough' and a.tier != 'thorough' and not a.group:
+                    deferred.append(g.name)
+                    continue
                 todo.append((c, g))
         if not todo and not infra:
             infra.append('no obligation group is registered for %s' % prop)
@@ -345,16 +349,25 @@ def main():
         import verdict
         if a.debug:
             seen = set()
+            for r in sorted(results, key=lambda r: -r.get('solver_s', 0))[:8]:
+                print('TIME %-40s %.1fs' % (r['group'], r.get('solver_s', 0)))
             for r in results:
                 if r['infra']:
                     if r['infra'] not in seen:
                         print('INFRA', r['group'], r['infra'][:600])
                     seen.add(r['infra'])
-                for o in r['obligations']:
-                    if o['status'] != 'SUCCESS' and 'VACUITY' not in o['tags']:
-                        print('FAIL', r['group'], o['name'], o['tags'], o['description'][:110], 'line', o['line'])
+                bad = [o for o in r['obligations'] if o['status'] != 'SUCCESS' and 'VACUITY' not in o['tags']]
+                if bad:
+                    print('FAIL %s: %d failing obligations' % (r['group'], len(bad)))
+                    shown = set()
+                    for o in bad:
+                        key = (tuple(o['tags']), o['description'][:60])
+                        if key in shown or len(shown) >= (40 if a.v else 6):
+                            continue
+                        shown.add(key)
+                        print('     ', o['name'], o['tags'], o['description'][:120], 'line', o['line'])
             return 0
-        rc = verdict.conclude(prop, a.tier, seed, comps, metas, results, infra, t_start, verbose=a.v)
+        rc = verdict.conclude(prop, a.tier, seed, comps, metas, results, infra, t_start, verbose=a.v, deferred=deferred)
     finally:
         if not a.keep:
             shutil.rmtree(workdir, ignore_errors=True)
